@@ -65,7 +65,38 @@ def block_known():
     return "\n".join(rows)
 
 
+def _matrix(kind):
+    mp = os.path.join(here, kind, "MATRIX.json")
+    return json.load(open(mp)) if os.path.exists(mp) else None
+
+
+def block_benign():
+    mx = _matrix("benign")
+    rows = ["| probe | kind of refactoring | checks raising a false alarm (exit 1) | checks undecided (exit 2) |", "|-------|---------------------|------|------|"]
+    n = fa = 0
+    for d in sorted(glob.glob(os.path.join(here, "benign", "*"))):
+        mp = os.path.join(d, "meta.json")
+        if not os.path.exists(mp):
+            continue
+        m = json.load(open(mp))
+        name = os.path.basename(d)
+        am = m.get("agent_meta") or {}
+        res = (mx or {}).get("results", {}).get(name)
+        if res is None:
+            res = m.get("nonzero_checks", {})
+        f1 = sorted(p for p, r in res.items() if isinstance(r, dict) and r.get("rc") == 1)
+        f2 = sorted(p for p, r in res.items() if isinstance(r, dict) and r.get("rc") == 2)
+        n += 1
+        fa += bool(f1)
+        rows.append("| %s | %s | %s | %s |" % (name, ((am.get("kind") or am.get("summary") or "")[:150]).replace("|", "\\|").replace("\n", " "),
+                                           ", ".join(f1) or "none", ", ".join(f2) or "none"))
+    rows.append("")
+    rows.append("Behaviour-preserving probes: %d; probes on which some check raises a false alarm: %d." % (n, fa))
+    return "\n".join(rows)
+
+
 def block_seeded():
+    mx = _matrix("seeded")
     rows = ["| seed | breaks | what it needs to manifest | valid (tests unchanged, demo flips) | caught by |", "|------|--------|---------------------------|------|-----------|"]
     tot = caught = 0
     for d in sorted(glob.glob(os.path.join(here, "seeded", "*"))):
@@ -76,8 +107,14 @@ def block_seeded():
         am = m.get("agent_meta") or {}
         if m.get("valid_seed"):
             tot += 1
-            caught += bool(m.get("caught_by"))
-        cb = ", ".join(m.get("caught_by") or []) or "**missed**"
+            cl = m.get("caught_by") or []
+            if mx and os.path.basename(d) in mx.get("results", {}):
+                cl = [p for p, r in mx["results"][os.path.basename(d)].items() if isinstance(r, dict) and r.get("rc") == 1]
+            caught += bool(cl)
+        caught_list = m.get("caught_by") or []
+        if mx and os.path.basename(d) in mx.get("results", {}):
+            caught_list = sorted(p for p, r in mx["results"][os.path.basename(d)].items() if isinstance(r, dict) and r.get("rc") == 1)
+        cb = ", ".join(caught_list) or "**missed**"
         if m.get("note"):
             cb += " (" + m["note"] + ")"
         rows.append("| %s | %s | %s | %s | %s |" % (os.path.basename(d), (am.get("summary") or "")[:200].replace("|", "\\|").replace("\n", " "),
@@ -88,7 +125,7 @@ def block_seeded():
     return "\n".join(rows)
 
 
-BLOCKS = dict(overview=block_overview, fixes=block_fixes, known=block_known, seeded=block_seeded)
+BLOCKS = dict(overview=block_overview, fixes=block_fixes, known=block_known, seeded=block_seeded, benign=block_benign)
 p = os.path.join(here, "DESIGN.md")
 t = open(p).read()
 for name, fn in BLOCKS.items():
